@@ -712,9 +712,10 @@ Notes:
             self._direc = direc
             self.population[0] = x   # bestSolution
             self.popEnergy[0] = fval # bestEnergy
-            self.energy_history = None # resync with 'best' energy
-            self._stepmon(x, fval, self.id) # get ith values
-            logged = True
+            if self._energy_history is not None: # not yet logged by Finalize
+                self.energy_history = None # resync with 'best' energy
+                self._stepmon(x, fval, self.id) # get ith values
+                logged = True
 
             fx = fval
             bigind = 0
